@@ -55,6 +55,12 @@ pub fn check(case: &Case, out: &RunOutput) -> Verdict {
     if out.flags.inconclusive {
         vd.inconclusive = true;
         vd.class("inconclusive");
+        // a run that exhausted its step budget proves nothing - except what has already been observed:
+        // a send on an unbounded mailbox that returned Pending (busy-waiting on the queue length
+        // never lets virtual time advance, which is exactly how the budget gets exhausted)
+        if case.family == Family::C12 {
+            c12::unbounded_never_waits(&v, &mut vd);
+        }
         return vd;
     }
     common_classes(&v, &mut vd);
